@@ -31,6 +31,11 @@ type Case struct {
 	MACLen  int      `json:"mac_len,omitempty"`
 	KeyLen  int      `json:"key_len,omitempty"`
 	IVLen   int      `json:"iv_len,omitempty"`
+	// ekm13: messages hashed into the transcript AFTER the exporter was built (the handshake goes
+	// on writing the client's second flight into the same hash), and how often the one exporter is
+	// evaluated (evaluation i > 0 uses the context with byte i appended)
+	Later  [][]byte `json:"later,omitempty"`
+	Repeat int      `json:"repeat,omitempty"`
 }
 
 // ---------------------------------------------------------------------------
@@ -252,6 +257,10 @@ func genTLS13(t *rapid.T) Case {
 		c.Label = genLabel(t, 249)
 		c.Seed = genNilable(t, 300, "context")
 		c.N = genLen(t, 512, "n")
+		if rapid.Bool().Draw(t, "later") {
+			c.Later = genMsgs(t)
+		}
+		c.Repeat = rapid.IntRange(1, 3).Draw(t, "repeat")
 	}
 	return c
 }
@@ -482,6 +491,30 @@ func checkTLS13(c Case, r *kit.R) {
 			r.Failf("C26:exporter13:error", "exportKeyingMaterial returned %v", err)
 		}
 		eq(r, "C26:exporter13", "exportKeyingMaterial", got, oExporter13(h, c.Secret, c.Msgs, c.Label, c.Seed, c.N))
+		// one exporter, built at the server Finished, evaluated Repeat times while the transcript
+		// hash it was built from keeps growing: RFC 8446 7.5 fixes the exporter master secret at
+		// ClientHello..server Finished
+		var calls []tls.VerifC26Export
+		for i := 0; i < max(c.Repeat, 1); i++ {
+			ctx := c.Seed
+			if i > 0 {
+				ctx = append(append([]byte{}, c.Seed...), byte(i))
+			}
+			calls = append(calls, tls.VerifC26Export{Label: string(c.Label), Context: ctx, Length: c.N})
+		}
+		outs, err := tls.VerifC26ExportKeyingMaterial13Seq(c.Suite, c.Secret, c.Msgs, c.Later, calls)
+		if err != nil || len(outs) != len(calls) {
+			r.Failf("C26:exporter13:error", "exportKeyingMaterial (sequence) returned %d values, %v", len(outs), err)
+		}
+		for i, cl := range calls {
+			eq(r, "C26:exporter13:sequence", fmt.Sprintf("exportKeyingMaterial, evaluation %d of one exporter after %d later transcript messages,", i, len(c.Later)), outs[i], oExporter13(h, c.Secret, c.Msgs, c.Label, cl.Context, c.N))
+		}
+		if len(c.Later) > 0 {
+			r.Class("exporter: transcript grows after construction")
+		}
+		if c.Repeat > 1 {
+			r.Class("exporter: evaluated repeatedly")
+		}
 	default:
 		r.Failf("harness:bad-case", "fn %q", c.Fn)
 	}
